@@ -402,8 +402,9 @@ def checkFees (r : RegState) (k : RegKind) (tx : Tx) : M Unit := do
   let _ ← newInt64Coin r.params.denom 0
   require (tx.fee.any (·.denom = r.params.denom)) (r.mErr 9)
   let expected ← expectedFee r k tx.msgs
-  require (!Coins.isAllLT tx.fee [expected]) (r.mErr 10)
-  require (!Coins.isAllGT tx.fee [expected]) (r.mErr 11)
+  -- the amount offered in the module's fee denomination must equal the expected amount exactly
+  require (!decide (Coins.amountOf tx.fee r.params.denom < expected.amt)) (r.mErr 10)
+  require (!decide (Coins.amountOf tx.fee r.params.denom > expected.amt)) (r.mErr 11)
 
 def Tx.payerM (tx : Tx) : M Addr :=
   match tx.payer with
